@@ -1,5 +1,6 @@
 (* C02 property theorems: statements only; every proof is [exact lemma]. *)
-From Gv Require Import lib.Bytes lib.Json C02.Model C02.Spec C02.ProofsRefine2 C02.ProofsTypesafe.
+From Gv Require Import lib.Bytes lib.Json C02.Model C02.Spec C02.ProofsRefine2 C02.ProofsTypesafe
+     C02.ProofsWelltyped C02.ProofsNoErr C02.ProofsDenied.
 Open Scope N_scope.
 
 (* non-vacuity: a well-formed plan with an abstract object, a nested list and an enum *)
@@ -32,3 +33,83 @@ Theorem complete_typesafe :
     conforms_b root data [] t = true.
 Proof. exact complete_typesafe_lemma. Qed.
 Print Assumptions complete_typesafe.
+
+(* T3: on well-typed data (no authorization) the completion is the plain projection, no errors *)
+Theorem welltyped_projection :
+  forall (root : node) (data : json),
+    root_wf root = true ->
+    welltyped_b root data [] = true ->
+    complete_root (fun _ _ => false) root data = (Some (project root data []), []).
+Proof. exact welltyped_projection_lemma. Qed.
+Print Assumptions welltyped_projection.
+
+(* T4: without authorization and without any "__skipErrors" key in the data, the error list is
+   empty exactly when the data is well-typed *)
+Theorem errors_iff_not_welltyped :
+  forall (root : node) (data : json),
+    root_wf root = true ->
+    no_skip_errors data = true ->
+    (snd (complete_root (fun _ _ => false) root data) = [] <-> welltyped_b root data [] = true).
+Proof. exact errors_iff_not_welltyped_lemma. Qed.
+Print Assumptions errors_iff_not_welltyped.
+
+(* T5: every denied field is null in the result and reported as EK_UNAUTHORIZED at its path *)
+Theorem denied_is_null :
+  forall (deny : bytes -> bytes -> bool) (root : node) (data : json) (t : json),
+    root_wf root = true ->
+    fst (complete_root deny root data) = Some t ->
+    denied_null_b deny root data [] [] (snd (complete_root deny root data)) t = true.
+Proof. exact denied_is_null_lemma. Qed.
+Print Assumptions denied_is_null.
+
+(* ---- non-vacuity: a non-null leaf is null inside a nullable object inside a list ----
+   plan  { l: [T] } with T { x: Int! };  data {"l":[{"x":1},{"x":null}]}
+   result {"l":[{"x":1},null]} with one non-null error at l.1.x *)
+Definition ex_plan : node :=
+  NObj [] false [81] [] [] false
+       [Fld [108] None None None
+            (NArr [[108]] true
+                  (NObj [] true [84] [] [] false [Fld [120] None None None (NInt [[120]] false)]))].
+Definition ex_data : json :=
+  JObj [([108], JArr [JObj [([120], JNum [49])]; JObj [([120], JNull)]])].
+Definition ex_out : json :=
+  JObj [([108], JArr [JObj [([120], JNum [49])]; JNull])].
+Definition ex_errs : list gerr :=
+  [{| ge_kind := EK_NONNULL; ge_path := [PName [108]; PIdx 1; PName [120]] |}].
+
+Example c02_bubble_wf : root_wf ex_plan = true.
+Proof. vm_compute. reflexivity. Qed.
+Example c02_bubble_complete :
+  complete_root (fun _ _ => false) ex_plan ex_data = (Some ex_out, ex_errs).
+Proof. vm_compute. reflexivity. Qed.
+Example c02_bubble_resolve :
+  let r := resolve (fun _ _ => false) ex_plan ex_data in
+  r_errors r = ex_errs /\ r_data r = marshal ex_out /\ r_data_null r = false /\
+  r_panic r = false /\ r_render_err r = false.
+Proof. vm_compute. repeat split. Qed.
+Example c02_bubble_conforms : conforms_b ex_plan ex_data [] ex_out = true.
+Proof. vm_compute. reflexivity. Qed.
+Example c02_bubble_not_welltyped : welltyped_b ex_plan ex_data [] = false.
+Proof. vm_compute. reflexivity. Qed.
+
+(* a denied, nullable, unresolvable object followed by a sibling: null + error, sibling printed *)
+Definition ex_auth_plan : node :=
+  NObj [] false [84] [] [] false
+       [Fld [97] None None (Some {| au_parent_type := [84]; au_field := [97] |})
+            (NObj [[97]] true [85] [] [] true []);
+        Fld [98] None None None (NInt [[98]] true)].
+Definition ex_auth_data : json := JObj [([97], JObj []); ([98], JNum [50])].
+Definition ex_auth_out : json := JObj [([97], JNull); ([98], JNum [50])].
+Definition ex_auth_errs : list gerr := [{| ge_kind := EK_UNAUTHORIZED; ge_path := [PName [97]] |}].
+Example c02_denied_wf : root_wf ex_auth_plan = true.
+Proof. vm_compute. reflexivity. Qed.
+Example c02_denied_complete :
+  complete_root (fun _ f => bytes_eqb f [97]) ex_auth_plan ex_auth_data = (Some ex_auth_out, ex_auth_errs).
+Proof. vm_compute. reflexivity. Qed.
+Example c02_denied_resolve :
+  let r := resolve (fun _ f => bytes_eqb f [97]) ex_auth_plan ex_auth_data in
+  r_errors r = ex_auth_errs /\ r_data r = marshal ex_auth_out /\ r_render_err r = false.
+Proof. vm_compute. repeat split. Qed.
+Example c02_denied_null :
+  denied_null_b (fun _ f => bytes_eqb f [97]) ex_auth_plan ex_auth_data [] [] ex_auth_errs ex_auth_out = true.
+Proof. vm_compute. reflexivity. Qed.
